@@ -7,7 +7,31 @@ import (
 	"fmt"
 	"os"
 	"testing"
+
+	"github.com/pion/logging"
 )
+
+type c11xLogger struct{ scope string }
+
+func (l *c11xLogger) p(lv, f string, a ...any) {
+	fmt.Printf("      [%s %s] %s\n", l.scope, lv, fmt.Sprintf(f, a...))
+}
+func (l *c11xLogger) Trace(m string)            { l.p("T", "%s", m) }
+func (l *c11xLogger) Tracef(f string, a ...any) { l.p("T", f, a...) }
+func (l *c11xLogger) Debug(m string)            { l.p("D", "%s", m) }
+func (l *c11xLogger) Debugf(f string, a ...any) { l.p("D", f, a...) }
+func (l *c11xLogger) Info(m string)             { l.p("I", "%s", m) }
+func (l *c11xLogger) Infof(f string, a ...any)  { l.p("I", f, a...) }
+func (l *c11xLogger) Warn(m string)             { l.p("W", "%s", m) }
+func (l *c11xLogger) Warnf(f string, a ...any)  { l.p("W", f, a...) }
+func (l *c11xLogger) Error(m string)            { l.p("E", "%s", m) }
+func (l *c11xLogger) Errorf(f string, a ...any) { l.p("E", f, a...) }
+
+type c11xFactory struct{ side string }
+
+func (f c11xFactory) NewLogger(scope string) logging.LeveledLogger {
+	return &c11xLogger{scope: f.side + "/" + scope}
+}
 
 func TestVerifC11X(t *testing.T) {
 	c11GetCreds()
@@ -17,6 +41,13 @@ func TestVerifC11X(t *testing.T) {
 	}
 	if err := json.Unmarshal([]byte(os.Getenv("C11X_S")), &s); err != nil {
 		t.Fatal(err)
+	}
+	if os.Getenv("C11X_LOG") != "" {
+		c11ConfigHook = func(c, s *dtlsConfig) {
+			c.LoggerFactory = c11xFactory{"C"}
+			s.LoggerFactory = c11xFactory{"S"}
+		}
+		defer func() { c11ConfigHook = nil }()
 	}
 	var res c11Case
 	vBubble(t, func(t *testing.T) { res = runC11(t, 0, "x", c, s, os.Getenv("C11X_RESUME") == "1", nil) })
